@@ -1,3 +1,4 @@
 import Driver.Run
 import Driver.Gen
+import Driver.Session
 import Driver.Main
